@@ -8,7 +8,7 @@
 //! b1 < 128, else ((b1 - 128) << 8) | b0.
 
 use crate::case::{Case, RawOp, NARGS};
-use crate::gen::{seg_domains, CAPS};
+use crate::gen::{seg_domains, CAPS_WIDE};
 use crate::interp_key::*;
 use crate::interp_ord::*;
 use crate::interp_seg::*;
@@ -112,7 +112,7 @@ pub fn decode(family: &str, prop: &str, data: &[u8]) -> Case {
             if family != "key" {
                 c.set("val", val);
             }
-            c.set("cap", CAPS[h(1) % CAPS.len()]);
+            c.set("cap", if h(1) < 200 { h(1) as i64 } else { CAPS_WIDE[(h(1) - 200) % CAPS_WIDE.len()] });
             let us = if family == "key" { KEY_US } else { ORD_US };
             c.set("U", us[h(2) % us.len()]);
             if family == "key" && h(3) & 1 == 1 {
@@ -164,7 +164,8 @@ pub fn encode(case: &Case) -> Vec<u8> {
             let coll = case.get_str("coll", "tree");
             let val = case.get_str("val", "u64");
             out[0] = vs.iter().position(|v| v.0 == coll && (family == "key" || v.1 == val)).unwrap_or(0) as u8;
-            out[1] = CAPS.iter().position(|c| *c == case.get_i64("cap", 8)).unwrap_or(0) as u8;
+            let cap = case.get_i64("cap", 8);
+            out[1] = if (0..200).contains(&cap) { cap as u8 } else { 200 + CAPS_WIDE.iter().position(|c| *c == cap).unwrap_or(0) as u8 };
             let us = if family == "key" { KEY_US } else { ORD_US };
             out[2] = us.iter().position(|u| *u == case.get_i64("U", 6)).unwrap_or(0) as u8;
             if case.get("clock0").is_some() {
